@@ -13,11 +13,11 @@ package main
 // recovered, and the chunks run in parallel.  A child that dies is itself a violation (with its stderr).
 
 import (
-	"errors"
 	"bytes"
 	"context"
 	"crypto/sha256"
 	"encoding/json"
+	"errors"
 	"fmt"
 	"io"
 	"os"
